@@ -13,7 +13,7 @@ BUILTINS = {'len', 'ord', 'chr', 'int', 'float', 'str', 'callable', 'isinstance'
             'set', 'sorted', 'reversed', 'filter', 'map', 'zip', 'any', 'all', 'repr', 'print',
             'IndexError', 'ValueError', 'TypeError', 'KeyError'}
 SPEC_FORMS = {'old', 'forall', 'exists', 'implies', 'holds', 'fresh', 'iff', 'ite', 'kind_is',
-              'same_str', 'allocated', 'unchanged'}
+              'same_str', 'allocated', 'unchanged', 'owned'}
 
 LIST_MUTATORS = {'append', 'pop', 'clear', 'insert', 'extend', 'sort', 'reverse', 'remove'}
 
@@ -101,6 +101,9 @@ class Exec(Engine):
 
     # ------------------------------------------------------------ names
     def lookup(self, st, name, node=None):
+        if st.spec and name == 'result' and st.result is not None:
+            # in a postcondition `result` is the return value, even if the function has a local of that name
+            return st.result
         fi = len(st.frames) - 1
         while fi is not None and fi >= 0:
             fr = st.frames[fi]
@@ -417,6 +420,7 @@ class Exec(Engine):
             s, ln = self.slice_bounds(st, lo, hi, n)
             new = VList(b.elem, st.alloc)
             st.alloc = simp(st.alloc + 1)
+            self.tag_list(st, new)
             self.list_set_len(st, new, ln)
             for j, sort in enumerate(slots(b.elem)):
                 key = self.items_key(b.elem, j)
@@ -507,6 +511,7 @@ class Exec(Engine):
         if isinstance(op, ast.Add) and isinstance(a, VList) and isinstance(b, VList) and a.elem == b.elem:
             new = VList(a.elem, st.alloc)
             st.alloc = simp(st.alloc + 1)
+            self.tag_list(st, new)
             la, lb = self.list_len(st, a), self.list_len(st, b)
             self.fresh_list_contents(st, new)
             st.assume(self.list_len(st, new) == la + lb)
@@ -579,10 +584,19 @@ class Exec(Engine):
         if isinstance(op, (ast.In, ast.NotIn)):
             r = self.contains(st, b, a, node)
             return r if isinstance(op, ast.In) else NOT(r)
-        if isinstance(a, VU):
-            return OR(*[AND(c, self.compare(st, op, x, b, node)) for c, x in a.alts])
-        if isinstance(b, VU):
-            return OR(*[AND(c, self.compare(st, op, a, x, node)) for c, x in b.alts])
+        if isinstance(a, VU) or isinstance(b, VU):
+            parts = []
+            for c, x in (a.alts if isinstance(a, VU) else b.alts):
+                try:
+                    r = self.compare(st, op, x, b, node) if isinstance(a, VU) else self.compare(st, op, a, x, node)
+                except PathDead:
+                    if st.spec:
+                        continue      # undefined on this alternative: false in a specification
+                    raise
+                parts.append(AND(c, r))
+            if not st.spec and not isinstance(a, VU):
+                pass
+            return OR(*parts)
         x, y = self.ord_term(st, a, node), self.ord_term(st, b, node)
         if (x[0] == 'c') != (y[0] == 'c'):
             self.prove(st, FALSE, 'aorte', node, 'TypeError: ordering comparison between %s and %s' % (a.kind, b.kind))
